@@ -546,6 +546,15 @@ func c19Worker(c *mc.Ctx) {
 		for _, v := range c19One(ws, l, &c.Stats) {
 			c.Stats.Violate(v)
 		}
+		if l.Split >= 0 {
+			// the same files created in the opposite order
+			pipe.ReverseCreate = true
+			for _, v := range c19One(ws, l, &c.Stats) {
+				v.Kind += "-reverse-creation-order"
+				c.Stats.Violate(v)
+			}
+			pipe.ReverseCreate = false
+		}
 	}
 }
 
@@ -563,6 +572,11 @@ func c19Replay(raw json.RawMessage) *mc.Violation {
 			"user.go": c19UserGo(sp.g), "base.gen.go": b.Res.Base, "lexer.gen.go": b.Res.Lexer, "parser.gen.go": b.Res.Parser}})
 	}
 	vs := c19One(ws, l, &ctx.Stats)
+	if len(vs) == 0 && l.Split >= 0 {
+		pipe.ReverseCreate = true
+		vs = c19One(ws, l, &ctx.Stats)
+		pipe.ReverseCreate = false
+	}
 	c19Collect = nil
 	if len(vs) == 0 {
 		c19RunCompiled(ctx, sample)
